@@ -39,6 +39,10 @@ def ud(module, subtype, version, data):
         return None
     if beh == b"Z":
         return json.dumps(ud_result(module, subtype, version, b))
+    if beh == b"M":
+        raise ValueError()          # an exception without any message (bare raise ValueError, failing assert, KeyError())
+    if beh == b"T":
+        raise RuntimeError("fx plugin failure\nwith a \"second\" line: {x}\n")
     if beh == b"R":
         raise ValueError("fx plugin failure for " + b[:9].decode("latin-1"))
     if beh == b"N":
